@@ -744,16 +744,34 @@ def rule_rec_once(ctx):
     # Function.pushforward itself
     fpf = m.func(TRACER, 'Function.pushforward')
     calls = [c for c in walk_no_nested(fpf.node) if isinstance(c, ast.Call) and isinstance(c.func, ast.Name) and c.func.id == 'func']
-    if len(calls) == 1:
-        c = calls[0]
-        star = [a for a in c.args if isinstance(a, ast.Starred)]
-        kw = [k for k in c.keywords if k.arg is None]
-        if len(star) == 1 and isinstance(star[0].value, ast.Name) and len(kw) == 1 and norm(kw[0].value) == 'Fkwargs':
-            r.ok(construct='pushforward:call', nontrivial=True, sample='Function.pushforward calls `%s` once' % norm(c))
+    # exactly one call of the operation on every returning path (the call may be written once per branch)
+    per_path = []
+    for path in _paths(fpf.node.body):
+        stmts = [s_ for s_ in path if not isinstance(s_, tuple)]
+        if not stmts or isinstance(stmts[-1], ast.Raise):
+            continue
+        n_ = 0
+        for s_ in path:
+            node_ = s_[1] if isinstance(s_, tuple) else s_
+            if isinstance(node_, (ast.For, ast.While)) and any(c in list(ast.walk(node_)) for c in calls):
+                n_ += 2         # inside a loop: any number of times
+                continue
+            n_ += sum(1 for c in calls if any(x is c for x in ast.walk(node_ if not isinstance(node_, ast.If) else node_.test)))
+        per_path.append(n_)
+    if calls and per_path and all(n_ == 1 for n_ in per_path):
+        bad_shape = None
+        for c in calls:
+            star = [a for a in c.args if isinstance(a, ast.Starred)]
+            kw = [k for k in c.keywords if k.arg is None]
+            if not (len(star) == 1 and isinstance(star[0].value, ast.Name) and len(kw) == 1 and norm(kw[0].value) == 'Fkwargs'):
+                bad_shape = c
+        if bad_shape is None:
+            r.ok(construct='pushforward:call', nontrivial=True, sample='Function.pushforward calls `%s` once on every returning path' % norm(calls[0]))
         else:
-            r.bad(Finding('R-rec-once', _f(fpf), 'call-shape', 'the operation is not called as func(*args, **Fkwargs): `%s`' % norm(c), fpf.file, c.lineno))
+            r.bad(Finding('R-rec-once', _f(fpf), 'call-shape', 'the operation is not called as func(*args, **Fkwargs): `%s`' % norm(bad_shape), fpf.file, bad_shape.lineno))
     else:
-        r.bad(Finding('R-rec-once', _f(fpf), 'call-count:%d' % len(calls), 'Function.pushforward calls the operation %d times' % len(calls), fpf.file, fpf.lineno))
+        r.bad(Finding('R-rec-once', _f(fpf), 'call-count:%s' % sorted(set(per_path)), 'Function.pushforward calls the operation %s times on its returning paths (must be exactly once)'
+                      % (sorted(set(per_path)) or [0]), fpf.file, fpf.lineno))
     r.floor = 70
     return r
 
@@ -884,7 +902,8 @@ def rule_rec_same(ctx):
         # the first argument is the value the operation returned: a local assigned from `func(*.., **Fkwargs)`
         res_names = {st.targets[0].id for st in walk_no_nested(fpf.node) if isinstance(st, ast.Assign) and len(st.targets) == 1
                      and isinstance(st.targets[0], ast.Name) and isinstance(st.value, ast.Call) and isinstance(st.value.func, ast.Name) and st.value.func.id == 'func'}
-        if len(txt) == 4 and txt[0] in res_names and txt[1:] == ['Fargs', 'Fkwargs', 'func'] and not rebound:
+        direct = bool(c.args) and isinstance(c.args[0], ast.Call) and isinstance(c.args[0].func, ast.Name) and c.args[0].func.id == 'func'
+        if len(txt) == 4 and (txt[0] in res_names or direct) and txt[1:] == ['Fargs', 'Fkwargs', 'func'] and not rebound:
             r.ok(construct='create-args', nontrivial=True, sample='node created from the same objects that were called: `%s`' % norm(c))
         else:
             r.bad(Finding('R-rec-same', _f(fpf), 'create-args', 'the node is not created from (out, Fargs, Fkwargs, func) as used for the '
